@@ -633,6 +633,75 @@ theorem modified_isolated (schema : String → V → Option V) (s s' : Store V) 
 
 end
 
+section
+variable {V : Type}
+
+/-- a current setting name is never renamed (whatever old names are declared) -/
+theorem rename_idempotent_on_current (cur : List String) (rn : Renames) (n : String) (h : n ∈ cur) :
+    renameSetting cur rn n = (n, false) := by
+  simp [renameSetting, h]
+
+/-- the targets of the live renames are names of declaring settings -/
+theorem mkRenamer_targets (today : Int) : ∀ (olds : List OldName) (acc rn : Renames),
+    mkRenamer today olds acc = some rn →
+    ∀ p ∈ rn.active, p ∈ acc.active ∨ ∃ d ∈ olds, d.1 = p.2 ∧ d.2.1 = p.1 := by
+  intro olds
+  induction olds with
+  | nil => intro acc rn h p hp; simp only [mkRenamer, Option.some.injEq] at h; subst h; exact Or.inl hp
+  | cons d rest ih =>
+    intro acc rn h p hp
+    obtain ⟨new, old, exp⟩ := d
+    unfold mkRenamer at h
+    by_cases hexp : isExpired today exp = true
+    · rw [if_pos hexp] at h
+      rcases ih _ rn h p hp with h1 | ⟨d, hd, h2⟩
+      · exact Or.inl h1
+      · exact Or.inr ⟨d, List.mem_cons_of_mem _ hd, h2⟩
+    · rw [if_neg hexp] at h
+      by_cases hc : (acc.active.map (·.1)).contains old = true
+      · rw [if_pos hc] at h; cases h
+      · rw [if_neg hc] at h
+        rcases ih _ rn h p hp with h1 | ⟨d, hd, h2⟩
+        · simp only [List.mem_append, List.mem_singleton] at h1
+          rcases h1 with h1 | rfl
+          · exact Or.inl h1
+          · exact Or.inr ⟨(new, old, exp), List.mem_cons_self, rfl, rfl⟩
+        · exact Or.inr ⟨d, List.mem_cons_of_mem _ hd, h2⟩
+
+private theorem lookupRename_mem (l : List (String × String)) (n m : String) (h : lookupRename l n = some m) :
+    (n, m) ∈ l := by
+  unfold lookupRename at h
+  cases hf : l.find? (fun p => p.1 == n) with
+  | none => simp [hf] at h
+  | some q =>
+    simp only [hf, Option.map_some, Option.some.injEq] at h
+    have h1 := List.mem_of_find?_eq_some hf
+    have h2 : q.1 = n := by simpa using List.find?_some hf
+    have : q = (n, m) := by rw [← h2, ← h]
+    rw [← this]; exact h1
+
+/-- **one renaming step is complete**: when every declaring setting is a current setting (as in any registry:
+old names are declared BY current settings), renaming an already renamed name changes nothing — a chain
+old → mid → new cannot be followed, and need not be, because `mid` would have to be a current name. -/
+theorem rename_single_step_complete (today : Int) (olds : List OldName) (cur : List String) (rn : Renames) (n : String)
+    (hmk : mkRenamer today olds ⟨[], []⟩ = some rn)
+    (hdecl : ∀ d ∈ olds, d.1 ∈ cur) :
+    renameSetting cur rn (renameSetting cur rn n).1 = ((renameSetting cur rn n).1, false) := by
+  by_cases hn : n ∈ cur
+  · simp [renameSetting, hn]
+  · cases hl : lookupRename rn.active n with
+    | none => simp [renameSetting, hn, hl]
+    | some m =>
+      have hmem := lookupRename_mem _ _ _ hl
+      have hm : m ∈ cur := by
+        rcases mkRenamer_targets today olds _ rn hmk _ hmem with h1 | ⟨d, hd, h2, _⟩
+        · simp at h1
+        · have h3 : d.1 = m := h2
+          rw [← h3]; exact hdecl d hd
+      simp [renameSetting, hn, hl, hm]
+
+end
+
 section Examples
 /-! Non-vacuity: the hypotheses of the theorems above are satisfiable (concrete instances). -/
 private def exSchema : String → Nat → Option Nat := fun n v => if n = "b" ∧ v > 100 then none else some v
